@@ -8,7 +8,7 @@ static long next_val(long lo, long hi)
 {
 	long v = 0;
 	if (iv < vals.size()) v = vals[iv];
-	else { std::printf("VP_REPLAY_UNDERRUN %zu\n", iv); }
+	else v = lo;   // a counterexample only fixes the inputs up to the failing assertion: continue with the smallest legal value
 	++iv;
 	if (v < lo || v > hi) { std::printf("VP_REPLAY_RANGE %ld not in [%ld,%ld]\n", v, lo, hi); std::fflush(stdout); std::_Exit(4); }
 	return v;
